@@ -79,8 +79,16 @@ func cls(notes ...string) string {
 	return s
 }
 
+// specWith derives the configuration the way every custom configuration is made — a by-value copy of a
+// built-in one with fields overwritten — from a Spec that has been USED before the copy, and overwrites the
+// fields of the copy a second time after using it too: a helper must read the fields as they are now.
 func specWith(secondsPerSlot, slotsPerEpoch, lookahead, minChurn, churnQ, target, maxComm uint64) *common.Spec {
+	useSpec(configs.Mainnet)
 	s := *configs.Mainnet
+	s.SECONDS_PER_SLOT = common.Timestamp(secondsPerSlot + 1)
+	s.SLOTS_PER_EPOCH = common.Slot(slotsPerEpoch*2 + 1)
+	s.MAX_SEED_LOOKAHEAD = common.Epoch(lookahead + 1)
+	useSpec(&s)
 	s.SECONDS_PER_SLOT = common.Timestamp(secondsPerSlot)
 	s.SLOTS_PER_EPOCH = common.Slot(slotsPerEpoch)
 	s.MAX_SEED_LOOKAHEAD = common.Epoch(lookahead)
@@ -89,6 +97,15 @@ func specWith(secondsPerSlot, slotsPerEpoch, lookahead, minChurn, churnQ, target
 	s.TARGET_COMMITTEE_SIZE = view.Uint64View(target)
 	s.MAX_COMMITTEES_PER_SLOT = view.Uint64View(maxComm)
 	return &s
+}
+
+func useSpec(s *common.Spec) {
+	s.SlotToEpoch(1000)
+	s.EpochStartSlot(3)
+	s.TimeToSlot(1_700_000_000, 1_600_000_000)
+	s.TimeAtSlot(1000, 1_600_000_000)
+	s.ComputeActivationExitEpoch(5)
+	s.ForkVersion(1000)
 }
 
 func unhex(s string) []byte { b, _ := hex.DecodeString(s); return b }
@@ -249,6 +266,8 @@ func run(c *Case) (f *report.Failure) {
 		if got := common.CommitteeCount(spec, n); got != want.Uint64() {
 			return report.Failf(c.Fn+"/wrong", "CommitteeCount(%d; spe=%d,target=%d,max=%d) = %d want %s", n, spe, target, maxc, got, want)
 		}
+	case "PayloadTimestamp":
+		return runPayloadTimestamp(c)
 	case "CheckSlotSpan":
 		slot, span, minSlot, maxSlot := u[0], u[1], u[2], u[3]
 		calls := 0
@@ -398,6 +417,8 @@ func genCase(t *rapid.T, fn string) *Case {
 			n1 = "n≈spe*target*k"
 		}
 		c.U, c.Note = []uint64{n, spe, target, maxc}, n1
+	case "PayloadTimestamp":
+		genPayloadTimestamp(t, c)
 	case "CheckSlotSpan":
 		slot, n1 := genU64(t, "slot")
 		span := small("span", 0, 1, 2, 32, 64)
@@ -528,6 +549,7 @@ var fns = []struct {
 	{"GetChurnLimit", 80000, 200000, nil},
 	{"CommitteeCount", 80000, 200000, nil},
 	{"CheckSlotSpan", 160000, 400000, nil},
+	{"PayloadTimestamp", 24000, 80000, nil},
 	{"Hash", 24000, 60000, nil},
 	{"GetHashFn", 16000, 40000, nil},
 	{"XorBytes32", 16000, 40000, nil},
@@ -537,7 +559,7 @@ var fns = []struct {
 func TestCheck(t *testing.T) {
 	r := report.Begin("C19")
 	defer r.Finish()
-	r.Rule("cases drawn per helper from boundary-biased uint64 generators (0,1,2^k±2,squares±2,2^32±3,max-4..max, representability edges) and Merkle trees of depth 0..33 and 34..70 (as deep as / deeper than the index is wide); non-trivial = input within distance 2 of a boundary value or a Merkle/hash case with depth>=1 / len>=1; distinct key = (function, boundary class, low bits of arguments)")
+	r.Rule("cases drawn per helper from boundary-biased uint64 generators (0,1,2^k±2,squares±2,2^32±3,max-4..max, representability edges) and Merkle trees of depth 0..33 and 34..70 (as deep as / deeper than the index is wide); every configuration is a by-value copy of a built-in Spec that was used before the copy, with its fields overwritten, used, and overwritten again; PayloadTimestamp: process_execution_payload of bellatrix/capella/deneb on an empty pre-merge state accepts a timestamp iff it is the representable time of the state's slot (slots around the last representable one, products that overflow); non-trivial = input within distance 2 of a boundary value or a Merkle/hash case with depth>=1 / len>=1; distinct key = (function, boundary class, low bits of arguments)")
 	r.Assume("math/big and crypto/sha256 are correct", "NextPowerOfTwo(0) is pinned to 0 by the repository's own test and not judged", "IntegerSquareRootPrysm (float based, unused by the transition) is not part of the property")
 	replay := func(raw json.RawMessage) *report.Failure {
 		var c Case
